@@ -248,7 +248,13 @@ MANIFEST = {
 		'corollaries (bad width, one-character name, wrong case, missing `=`, missing operand), bad_width_member_rejected, '
 		'one_char_member_name_rejected, wrong_case_member_name_rejected, unknown_statement_keyword_rejected, unknown_member_keyword_rejected, '
 		'unknown_const_keyword_rejected, unknown_if_rejected, unknown_attribute_rejected, unknown_transform_rejected, '
-		'unknown_condition_operator_rejected, missing_open_bracket_rejected, missing_close_bracket_array_rejected, wrong_arity_*_rejected, and '
+		'unknown_condition_operator_rejected, missing_open_bracket_rejected, missing_close_bracket_array_rejected, wrong_arity_*_rejected; second '
+		'round, per remaining site: enum_name_rejected, struct_name_rejected, bad_width_enum_base_rejected, missing_operand_enum_base_rejected, '
+		'unknown_struct_after_modifier_rejected (abstract xstruct), unknown_transform_later_rejected (any later comparer entry), '
+		'missing_bracket_make_const_rejected, missing_bracket_binary_fixed_rejected, missing_close_bracket_reserved_sizeof_rejected, '
+		'missing_close_bracket_size_rejected, missing_bracket_attribute_rejected and wrong_arity_fixed_rejected (instances), '
+		'bad_width_{array_element,sizeof,make_reserved,make_const}_rejected, missing_operand_{member,constant}_rejected, '
+		'missing_equals_{member,constant}_rejected; and '
 		'on printed documents empty_struct_rejected and dedented_member_rejected (with member_outside_declaration_rejected). The operators '
 		'themselves are defined in Model/Cats/Corrupt.lean. Model and operators are tied to catbuffer.lark / CatsLarkParser.py by a differential '
 		'run: every shipped .cats file and generated documents x 14 operators x applicable sites must be rejected by lark with a position, and '
